@@ -1568,6 +1568,9 @@ func planC20(tier string, seed int64) (*Plan, error) {
 	each("H_c20_inline", 3, "n", 3)
 	each("H_c20_render", 3, "n", 3)
 	each("H_c20_transformers", 4, "n", 2)
+	// priorities over the whole int range (negative values, differences beyond MaxInt)
+	jobs = append(jobs, job("H_c20_inline", "n", 3, "order", int(seed)%6, "route", 0, "wide", 1), job("H_c20_render", "n", 3, "order", int(seed+1)%6, "route", 1, "wide", 1),
+		job("H_c20_transformers", "n", 2, "order", int(seed+2)%24, "route", 2, "wide", 1), job("H_c20_block", "nt", 2, "nf", 0, "order", int(seed)%2, "route", 0, "wide", 1))
 	if thorough {
 		each("H_c20_block", 4, "nt", 2, "nf", 2)
 		each("H_c20_inline", 4, "n", 4)
@@ -1578,7 +1581,7 @@ func planC20(tier string, seed int64) (*Plan, error) {
 	}
 	p.Jobs = jobs
 	p.Bounds = map[string]interface{}{
-		"priorities":   "symbolic integers in [1,1999], pairwise distinct and different from 1000 (built-in paragraph parser / HTML renderer): every relative order among the probes and against every built-in priority is covered by solver forks in the real sort.Slice comparator",
+		"priorities":   "symbolic integers in [1,1999] (and, in one job per component type, any 64-bit integer), pairwise distinct and different from 1000 (built-in paragraph parser / HTML renderer): every relative order among the probes and against every built-in priority is covered by solver forks in the real sort.Slice comparator",
 		"components":   "block parsers: 2 on trigger '@' + 1 trigger-less, 1+1, 2+0 (thorough 2+2); inline parsers: 3 on trigger '%' (4 in one order; thorough all); node renderers: 3 overriding ThematicBreak (4 in one order); 2 paragraph + 2 AST transformers (3+3 in one order); which probe accepts is a solver-enumerated choice including 'none'",
 		"registration": "every permutation of the registration order x route {options of New, one Extender calling AddOptions, alternating} (quick: one seeded route per permutation; thorough: all three)",
 		"missing kind": "a node of a kind created after every kind known to the renderer, with a paragraph below it, is rendered: no error, children rendered",
